@@ -369,15 +369,26 @@ def step (resolve : Src → Table) (t : Table) : Tr → Table
     let r := resolve right
     { rows := t.rows ++ r.rows, ambig := t.ambig || r.ambig }
 
+/-- what a relation reference denotes: a base table of the instance, or an already evaluated `let` -/
+def resolveSrc (db : Db) (lets : List Table) : Src → Table
+  | .base i => { rows := db.getD i [] }
+  | .ref i => lets.getD i default
+
 def evalPipe (db : Db) (lets : List Table) (p : Pipe) : Table :=
-  let resolve : Src → Table := fun
-    | .base i => { rows := db.getD i [] }
-    | .ref i => lets.getD i default
-  p.trs.foldl (step resolve) (resolve p.src)
+  p.trs.foldl (step (resolveSrc db lets)) (resolveSrc db lets p.src)
+
+/-- `let`s are evaluated in order; each sees the earlier ones -/
+def evalLets (db : Db) (ls : List Pipe) : List Table :=
+  ls.foldl (fun acc l => acc ++ [evalPipe db acc l]) []
 
 /-- the relation a program denotes on a database instance -/
 def evalSrc (db : Db) (p : Prog) : Table :=
-  let lets := p.lets.foldl (fun acc l => acc ++ [evalPipe db acc l]) []
-  evalPipe db lets p.main
+  evalPipe db (evalLets db p.lets) p.main
+
+/-- relation references made by a transform -/
+def Tr.srcs : Tr → List Src
+  | .join _ right _ _ _ => [right]
+  | .append right => [right]
+  | _ => []
 
 end Model.Rel
